@@ -308,7 +308,7 @@ package fit
 //@ func (d *decoder) validateFieldDef(gmsgnum MesgNum, dfield fieldDef) (err error)
 //@   props C01
 //@   ensures [not-clean-eof] !iserr(err, errReadSize)
-//@   split profile gmsgnum dfield.num
+//@   split profile gmsgnum dfield.num compat
 //@   reveal compat, tables
 //@   ensures [compat] err == nil ==> compat(gmsgnum, dfield)
 //@   assigns nothing
@@ -611,6 +611,7 @@ package fit
 
 //@ func (d *decoder) decode(r io.Reader, headerOnly bool, fileIDOnly bool, crcOnly bool) (err error)
 //@   props C01 C10 C11
+//@   slow bounded-frame 90
 //@   requires [reader] r != nil
 //@   requires [fresh] fresh_decoder(d)
 //@@ C10 is stated on the conserved quantity framepos (= bytes delivered minus bytes accounted for); the
